@@ -4,6 +4,11 @@ use serde::Serialize;
 
 #[derive(Serialize, Clone)]
 pub struct Responses(Map<Status, Response>);
+impl Responses {
+    pub(crate) fn is_empty(&self) -> bool {
+        self.0.is_empty()
+    }
+}
 
 #[derive(Clone, PartialEq, PartialOrd)]
 pub enum Status {
